@@ -10,7 +10,7 @@ variables, rule blocks, takes the first that does not raise – whatever it rais
 
 *Values.*  A variable holds a float / 0-d array or a 1-D array (`VarValue`; a scalar is a batch of one row, as in
 `Op.Cascade`).  `input_values` puts the values side by side as the columns of a 2-D array: all of them must have the
-same number of rows.  `output_values` (repaired, F12 and F15) first stretches every value that has a single row to the
+same number of rows.  `output_values` (repaired, F12 and F17) first stretches every value that has a single row to the
 number of rows of the others – an output variable without activations holds a single NaN regardless of the batch size –
 where "the others" are the values of the input variables as well as those of the output variables: when no output
 variable holds a value per row (all of them disabled, or no rule block enabled) the rows are those of the input values.
